@@ -46,6 +46,10 @@ type World struct {
 	splits        []Term
 	quantFacts    []quantFact
 	loopFreshOnly map[string]bool
+	indexTerms    []Term
+	topEntry      *State
+	firedAsserts  map[*AssertSpec]bool
+	pendingExtra  []string
 	loopKeysExtra []string
 	curBlock      *ssa.BasicBlock
 	muted         int
@@ -71,7 +75,7 @@ type smokePoint struct {
 func newWorld(l *Loaded, specs *Specs) *World {
 	w := &World{l: l, specs: specs, sc: newScript(), preSeen: map[string]bool{}, tags: map[string]int{},
 		heapSort: map[string]Sort{}, heapRef: map[string]bool{}, assumps: map[string]bool{}, fnIDs: map[*ssa.Function]int{}, fnByID: map[int]*ssa.Function{},
-		closures: map[string]*FnVal{}, callOrd: map[string]int{}, dynOf: map[string]*Val{}, implFacts: map[string]types.Type{},
+		closures: map[string]*FnVal{}, firedAsserts: map[*AssertSpec]bool{}, callOrd: map[string]int{}, dynOf: map[string]*Val{}, implFacts: map[string]types.Type{},
 		ranges: map[*ssa.Range]*rangeState{}, rangeKey: map[*ssa.Range]string{}, inlined: map[string]bool{}, usedContracts: map[string]*Contract{}}
 	w.heapSort["MapLen"] = arraySort(SInt, SInt)
 	w.heapSort[allocKey] = SInt
@@ -657,6 +661,7 @@ type Obligation struct {
 	Values       []string
 	ValNames     []string
 	Result       *SolverResult
+	Extra        []string // assumptions local to this obligation (instances of quantified facts)
 	KnownFailing bool
 	Clause       *Clause
 	Relaxed      *SolverResult
@@ -693,7 +698,7 @@ func (w *World) noteQuantFacts(guard Term, env *CEnv, e *CExpr) {
 			g := w.evalBool(env, e.Args[0])
 			w.noteQuantFacts(and(guard, g), env, e.Args[1])
 		}()
-	case e.Op == "forall" && len(e.Binders) == 1:
+	case e.Op == "forall" && len(e.Binders) >= 1 && len(e.Binders) <= 2:
 		snap := *env
 		snap.cur = env.cur.clone()
 		if env.old != nil {
@@ -739,6 +744,7 @@ func (w *World) skolemGoal(env *CEnv, e *CExpr) Term {
 		return w.evalBool(env, e)
 	}
 	goal := walk(env, e)
+	instMark := w.sc.mark()
 	// instantiate assumed quantified facts at the skolem constants (and at
 	// the images of unary integer specification functions)
 	var terms []Term
@@ -750,31 +756,73 @@ func (w *World) skolemGoal(env *CEnv, e *CExpr) Term {
 			}
 		}
 	}
-	for _, qf := range w.quantFacts {
-		b := qf.expr.Binders[0]
-		if !(b.Type.Name == "int" || b.Type.Name == "Int") || b.Type.Ptr != 0 || b.Type.Pkg != "" {
-			continue
+	// program index terms (i in s[i]) are instantiation candidates too
+	for _, t := range w.indexTerms {
+		dup := false
+		for _, x := range terms {
+			if x.S == t.S {
+				dup = true
+			}
 		}
-		for _, t := range terms {
-			func() {
-				defer func() {
-					if r := recover(); r != nil {
-						if _, ok := r.(unsupportedErr); !ok {
-							panic(r)
-						}
-					}
-				}()
-				inst := w.evalBool(qf.env.with(b.Name, &Val{T: t, Typ: types.Typ[types.Int]}), qf.expr.Args[0])
-				w.sc.assume(implies(qf.guard, inst))
-			}()
+		if !dup && len(terms) < 10 {
+			terms = append(terms, t)
 		}
 	}
+	isInt := func(b Binder) bool {
+		return (b.Type.Name == "int" || b.Type.Name == "Int") && b.Type.Ptr == 0 && b.Type.Pkg == "" && !b.Type.Slice && b.Type.Raw == ""
+	}
+	if len(terms) > 0 {
+		for _, qf := range w.quantFacts {
+			ok := true
+			for _, b := range qf.expr.Binders {
+				if !isInt(b) {
+					ok = false
+				}
+			}
+			if !ok {
+				continue
+			}
+			var combos [][]Term
+			if len(qf.expr.Binders) == 1 {
+				for _, t := range terms {
+					combos = append(combos, []Term{t})
+				}
+			} else {
+				for _, t1 := range terms {
+					for _, t2 := range terms {
+						if len(combos) < 64 {
+							combos = append(combos, []Term{t1, t2})
+						}
+					}
+				}
+			}
+			for _, combo := range combos {
+				func() {
+					defer func() {
+						if r := recover(); r != nil {
+							if _, ok := r.(unsupportedErr); !ok {
+								panic(r)
+							}
+						}
+					}()
+					env2 := qf.env
+					for i, b := range qf.expr.Binders {
+						env2 = env2.with(b.Name, &Val{T: combo[i], Typ: types.Typ[types.Int]})
+					}
+					inst := w.evalBool(env2, qf.expr.Args[0])
+					w.sc.assume(implies(qf.guard, inst))
+				}()
+			}
+		}
+	}
+	w.pendingExtra = w.sc.cut(instMark)
 	return goal
 }
 
 func (w *World) oblige(kind, label string, cond, goal Term, star bool, props []string) *Obligation {
 	o := &Obligation{Name: w.curFn + "#" + label, Func: w.curFn, Label: label, Kind: kind, Star: star, Props: props,
 		Goal: implies(cond, goal), Mark: w.sc.mark(), Expect: "unsat"}
+	o.Extra, w.pendingExtra = w.pendingExtra, nil
 	if w.muted > 0 {
 		return o // re-execution of code whose obligations are generated elsewhere
 	}
